@@ -1017,6 +1017,25 @@ class Walker:
             return here
         return count(body, False)
 
+    def down_updates_of(self, body, name):
+        """-> the constants c of the updates `name -= c` when these are the only changes of `name` in body (none in an inner loop), else None"""
+        out = []
+
+        def go(n, nested):
+            t = H.tag(n)
+            if t is None:
+                return all(go(c, nested) for c in n if isinstance(c, list)) if isinstance(n, list) else True
+            if t in ("asg", "refmut") and H.local_name(H.strip(n[1])) == name:
+                return False
+            if t == "asgop" and H.local_name(H.strip(n[4])) == name:
+                v = H.lit_int(H.strip(n[5]))
+                if n[2] != "SubAssign" or nested or v is None or v < 0:
+                    return False
+                out.append(v)
+            nested2 = nested or t in ("for", "while", "loop", "closure")
+            return all(go(c, nested2) for c in n[1:] if isinstance(c, list))
+        return out if go(body, False) and out else None
+
     def update_nodes(self, body, name):
         """the right-hand sides e of the updates `name += e` when these are the only changes of `name` in body and none of them stands in
         an inner loop or closure; else None"""
@@ -1261,15 +1280,34 @@ class Walker:
                             trips = t_ if trips is None else min(trips, t_)
                             self.counter_loops.add(id(n))
                             self._keep.append(n)
+            downs = {}
+            if t == "while":
+                # a counter that only goes down: `while x != 0` / `while x > 0` where the body changes x only by `x -= c` (c >= 1; c == 1 for !=):
+                # x stays within [0, its value where the loop starts] and the loop runs at most that value / c times
+                for c in conj:
+                    if not (H.tag(c) == "bin" and c[2] in ("Ne", "Gt") and H.lit_int(H.strip(c[5])) == 0):
+                        continue
+                    nm = self.local_of(c[4])
+                    dn = self.down_updates_of(n[2], nm) if nm else None
+                    ir = self.init_range(nm, env) if dn else None
+                    if dn and ir is not None and len(dn) == 1 and dn[0] >= 1 and ir[0] >= 0 and (c[2] != "Ne" or dn[0] == 1):
+                        downs[nm] = (0, ir[1])
+                        t_ = -(-ir[1] // dn[0])
+                        trips = t_ if trips is None else min(trips, t_)
+                        self.counter_loops.add(id(n))
+                        self._keep.append(n)
             accs = {}
             if trips is not None:
                 # other locals the body only adds non-negative amounts to: bounded by the number of iterations
-                for nm in sorted(mutated_names(n[2]) - set(counters)):
+                for nm in sorted(mutated_names(n[2]) - set(counters) - set(downs)):
                     ir = self.init_range(nm, env)
                     if ir is not None and self.update_nodes(n[2], nm) is not None:
                         accs[nm] = ir
             self.loop_entry(n, env)
             e2 = env.child()
+            for nm, (lo_, hi_) in downs.items():
+                self.seq += 1
+                e2.set("#ref:" + nm, ("ref", lo_, hi_), self.seq)
             if t == "while":
                 self.walk(n[1], env, loops + (n,))
                 self.refine(n[1], e2, True)
@@ -1296,7 +1334,7 @@ class Walker:
                 env.kill("#ref:" + nm, self.seq)
                 self.seq += 1
                 env.set("#ref:" + nm, ("ref", lo_, hi_after), self.seq)
-            for nm, (lo_, hi_) in acc_after.items():
+            for nm, (lo_, hi_) in list(acc_after.items()) + list(downs.items()):
                 self.seq += 1
                 env.kill("#ref:" + nm, self.seq)
                 self.seq += 1
